@@ -45,11 +45,12 @@ def needsLoad (k : Kind) (c : Cell) (pref : Path) (ignore : Bool) (fs : FS) : Bo
 def contentOf (fs : FS) (ps : List Path) : List (Path × Nat) := ps.map fun p => (p, fs.content p)
 def timesOf (fs : FS) (ps : List Path) : List (Path × Nat) := ps.map fun p => (p, fs.mtime p)
 
-/-- bring one cache up to date. On a read/parse error the table has already been cleared and the recorded files stay as they were. -/
+/-- bring one cache up to date. On a read/parse error the table has already been cleared and the record of the files has been
+forgotten (`ft.clear()` before the read), so nothing counts as loaded and the next call tries again. -/
 def refresh (k : Kind) (c : Cell) (pref : Path) (ignore : Bool) (fs : FS) : Cell × Bool :=
   if needsLoad k c pref ignore fs then
     if (fs.incl pref).all fs.good then (⟨timesOf fs (fs.incl pref), contentOf fs (fs.incl pref)⟩, true)
-    else (⟨c.files, []⟩, false)
+    else (Cell.empty, false)
   else (c, true)
 
 /-- the caches one rule set uses: its rules, and the Unicode tables and definitions shared by its side (speech / braille) -/
